@@ -282,8 +282,33 @@ def read_idioms():
     dcalls = [n.func.attr for n in ast.walk(di) if isinstance(n, ast.Call) and isinstance(n.func, ast.Attribute)]
     if "get_peers" not in dcalls or "disconnect_interface" not in dcalls or (not skips and "node_exists" in dcalls):
         raise ExtractionError("_disconnect_interfaces: unrecognised shape %s" % dcalls)
+    # (7) does add_component_sliver remove the partial component when a later step raises?
+    #     add_node(<component>); try: add_link(parent, component); <nested services> except Exception: remove_component_...; raise
+    ac = find_func(pg, "add_component_sliver")
+    ac_order = call_order(ac)
+    if "add_node" not in ac_order or "add_link" not in ac_order or "add_network_service_sliver" not in ac_order:
+        raise ExtractionError("add_component_sliver shape changed: %s" % ac_order)
+    atries = [n for n in ast.walk(ac) if isinstance(n, ast.Try)]
+    if not atries:
+        component_rb = False
+    else:
+        def self_calls(stmts):
+            return [n.func.attr for st in stmts for n in ast.walk(st) if isinstance(n, ast.Call) and isinstance(n.func, ast.Attribute)
+                    and isinstance(n.func.value, ast.Name) and n.func.value.id == "self"]
+        tr = atries[0]
+        hs = tr.handlers
+        before = self_calls(ac.body[:ac.body.index(tr)]) if tr in ac.body else []
+        inner = self_calls(tr.body)
+        ok = (len(atries) == 1 and len(hs) == 1 and (hs[0].type is None or (isinstance(hs[0].type, ast.Name) and hs[0].type.id == "Exception"))
+              and isinstance(hs[0].body[-1], ast.Raise) and hs[0].body[-1].exc is None
+              and "remove_component_with_nss_cps_and_links" in self_calls(hs[0].body)
+              and "add_node" in before and "add_node" not in inner and "add_link" in inner and "add_network_service_sliver" in inner)
+        if not ok:
+            raise ExtractionError("add_component_sliver: unrecognised try/except shape")
+        component_rb = True
     return {"svcRollbackAll": catch_all, "facIndexReset": inside, "compositeRollback": comp_rb[0], "detachSkipsGone": skips,
             "linkPrecheck": link_pre, "ifaceParentPrecheck": if_pre, "connectNamePrecheck": conn_pre, "peerRollback": peer_rb,
+            "componentRollback": component_rb,
             "spans": {"NetworkService.__init__": span_hash(src, init), "Topology.add_facility": span_hash(src2, fac)}}
 
 
@@ -383,6 +408,8 @@ def generate():
     body.append("def detachSkipsGone : Bool := %s\n" % ("true" if idioms["detachSkipsGone"] else "false"))
     body.append("/-- `NetworkService.peer` removes the ServicePorts it created when a later step raises -/")
     body.append("def peerRollback : Bool := %s\n" % ("true" if idioms["peerRollback"] else "false"))
+    body.append("/-- `add_component_sliver` removes the partial component (node, service, interfaces created so far) when a later step raises -/")
+    body.append("def componentRollback : Bool := %s\n" % ("true" if idioms["componentRollback"] else "false"))
     changed = emit("Rules", "\n".join(body))
     missing = {k: [m for m in en[k] if m not in rules["types"][k]] for k in order}
     return {"changed": changed, "rules": len(rules["kinds"]), "classes": rules["classes"],
